@@ -100,6 +100,38 @@ def scenarios(rng, rounds):
                                                  "token_before": before[0]}, _gen(t, ts), exp)
 
 
+def key_spelling_cases(rng, thorough=False):
+    """every way the library itself writes a key down, and every blank a user may paste with it, denotes the same key: yields
+    (tag, input, observed, expected).  Key sizes 1..70 (every residue of the 4/5/6-symbol groups of pretty_key)."""
+    import passlib.totp as pt
+    from passlib.totp import TOTP
+
+    blanks = [" ", "\t", "\n", "\u00a0", "\u2009", "\u3000", "\u2003", "\u0085", "\u202f", "\u1680", "\u2028"]
+    sizes = list(range(1, 71)) if thorough else sorted(set(list(range(1, 34)) + [40, 48, 62, 63, 64, 65, 70]))
+    for n in sizes:
+        key = rng.randbytes(n)
+        t = TOTP(key=key, format="raw")
+        for fmt in ("base32", "hex"):
+            for sep in ("-", " ", False, "\u00a0"):
+                inp = {"op": "pretty-key", "key": key.hex(), "format": fmt, "sep": repr(sep)}
+                try:
+                    text = t.pretty_key(format=fmt, sep=sep)
+                    got = TOTP(key=text, format=fmt).key.hex()
+                except Exception as e:  # noqa: BLE001
+                    got = errname(e) + ": " + str(e)[:80]
+                yield ("pretty-key-denotes-the-key", inp, got, key.hex())
+            plain = t.base32_key if fmt == "base32" else t.hex_key
+            b = rng.choice(blanks)
+            i = rng.randrange(0, len(plain) + 1)
+            for text in (plain[:i] + b + plain[i:], b + plain + b, b.join(plain[j:j + 4] for j in range(0, len(plain), 4))):
+                inp = {"op": "key-with-blank", "key": key.hex(), "format": fmt, "blank": "U+%04X" % ord(b), "text": text}
+                try:
+                    got = pt._decode_bytes(text, fmt).hex()
+                except Exception as e:  # noqa: BLE001
+                    got = errname(e) + ": " + str(e)[:80]
+                yield ("blanks-in-key-ignored", inp, got, key.hex())
+
+
 def correspond(ctx):
     import warnings
 
@@ -166,6 +198,8 @@ def correspond(ctx):
     o_sc = Oracle(ctx, "time-forms-and-shared-keys")
     for tag, inp, got, exp in scenarios(rng, 150 if not ctx.thorough else 5000):
         o_sc.check(tag, got == exp, inp, got, exp)
+    for tag, inp, got, exp in key_spelling_cases(rng, ctx.thorough):
+        o_sc.check(tag, got == exp, inp, got, exp)
     return merge(s_tok, s_cnt, s_key, o_sc)
 
 
@@ -177,6 +211,9 @@ def search(ctx, broken, seeds):
     warnings.simplefilter("ignore")
     rng = ctx.rng
     for tag, inp, got, exp in scenarios(rng, 400 if not ctx.thorough else 5000):
+        if got != exp:
+            return {"input": inp, "observed": got, "expected": exp, "check": tag}
+    for tag, inp, got, exp in key_spelling_cases(rng, ctx.thorough):
         if got != exp:
             return {"input": inp, "observed": got, "expected": exp, "check": tag}
     for _ in range(20000 if not ctx.thorough else 300000):
